@@ -234,6 +234,7 @@ func (fr *frame) loadPtr(T types.Type, addr value) value {
 		if _, isBad := (*a).(bad); isBad {
 			panic(unsupported("read of poisoned value (unsupported initialiser)"))
 		}
+		fr.raceAccess(T, a, false)
 		return load(T, a)
 	case symPtr:
 		return fr.loadSym(a)
@@ -250,6 +251,7 @@ func (fr *frame) storePtr(T types.Type, addr value, v value) {
 		if fr.guard != nil {
 			panic(unsupported("store inside if-converted region"))
 		}
+		fr.raceAccess(T, a, true)
 		store(T, a, v)
 		return
 	case symPtr:
@@ -348,6 +350,14 @@ func (fr *frame) binop(op token.Token, t types.Type, x, y value) value {
 			return symFloat{"opaque"}
 		}
 		panic(unsupported("comparison of an opaque (symbolic) float"))
+	}
+	_, xo := x.(opaqueStr)
+	_, yo := y.(opaqueStr)
+	if xo || yo {
+		if op == token.ADD {
+			return opaqueStr{}
+		}
+		panic(unsupported("comparison of a string formatted by the host fmt from symbolic operands (route fmt through the zz_verifmodel model for this job)"))
 	}
 	if isSym(x) || isSym(y) {
 		return fr.i.symBinop(fr, op, x, y)
